@@ -44,7 +44,9 @@ def search(prefix):
         for k in range(3):
             st = ctx.correspond("h_gpbft", "Gpbft", env={"VERIF_RUNS": "3000"}, seed=ctx.seed * 7919 + k,
                                 tag="search%d" % k, oracle_filter=prefix)
-            bad = [m for m in st.get("messages", []) if m.startswith("ORACLE-FAIL") and prefix in m]
+            # (a listed known finding is not a failing input for a broken obligation)
+            bad = [m for m in st.get("messages", []) if m.startswith("ORACLE-FAIL") and prefix in m
+                   and not ctx.known_finding(m)]
             if bad:
                 return bad[:20]
         return None
